@@ -65,7 +65,7 @@ func (g *rxGen) atom(depth int) string {
 	case 0, 1, 2:
 		return rapid.SampledFrom([]string{"a", "b", "c", "1", "A", " "}).Draw(g.rt, "lit")
 	case 3:
-		return rapid.SampledFrom([]string{"[ab]", "[^a]", "[a-c]", `\d`, `\w`, `\s`, "[0-9]"}).Draw(g.rt, "class")
+		return rapid.SampledFrom([]string{"[ab]", "[^a]", "[a-c]", `\d`, `\w`, `\s`, "[0-9]", `\\`, `\.`}).Draw(g.rt, "class")
 	case 4:
 		return "."
 	case 5, 6, 7:
@@ -275,8 +275,11 @@ func TestC16Regex(t *testing.T) {
 			p = rapid.SampledFrom(invalidPatterns).Draw(rt, "badpat")
 		}
 		alphabet := []rune("aabbc1A ")
-		if rapid.IntRange(0, 5).Draw(rt, "multibyte") == 5 {
+		switch rapid.IntRange(0, 5).Draw(rt, "multibyte") {
+		case 5:
 			alphabet = []rune("aabé中c1A ")
+		case 4:
+			alphabet = []rune("aab\\.c1 ") // a backslash is an ordinary character of an XPath literal, also as its last one
 		}
 		s := rapid.StringOfN(rapid.SampledFrom(alphabet), 0, 8, -1).Draw(rt, "s")
 		r := ""
@@ -285,7 +288,7 @@ func TestC16Regex(t *testing.T) {
 			for i := 0; i < n; i++ {
 				switch rapid.IntRange(0, 3).Draw(rt, "rkind") {
 				case 0:
-					r += rapid.SampledFrom([]string{"x", "-", "[", "]", " ", "7"}).Draw(rt, "rlit")
+					r += rapid.SampledFrom([]string{"x", "-", "[", "]", " ", "7", "\\"}).Draw(rt, "rlit")
 				default:
 					k := 1
 					if g.groups > 0 {
